@@ -1,0 +1,67 @@
+//go:build verif && !noregpool
+// +build verif,!noregpool
+
+package runtime
+
+// Verification hooks (build tag verif): drive the private register pool from a
+// correspondence harness.  Read-only with respect to the runtime: a separate
+// pool instance is created, no Runtime is touched.
+
+// VerifValuePool wraps a private valuePool and names the register sets it
+// hands out by small integers (in order of first appearance).
+type VerifValuePool struct {
+	p    valuePool
+	ids  map[*Value]int
+	sets map[int][]Value
+}
+
+// VerifNewValuePool makes a pool exactly as runtime.New does.
+func VerifNewValuePool(size, maxAge uint) *VerifValuePool {
+	return &VerifValuePool{p: mkValuePool(size, maxAge), ids: map[*Value]int{}, sets: map[int][]Value{}}
+}
+
+// Get calls valuePool.get and reports the identity of the set (0 for an empty
+// set), its length and whether all its values are zero.
+func (v *VerifValuePool) Get(sz int) (id int, length int, allZero bool) {
+	s := v.p.get(sz)
+	allZero = true
+	for _, x := range s {
+		if x != (Value{}) {
+			allZero = false
+		}
+	}
+	if len(s) == 0 {
+		return 0, 0, allZero
+	}
+	id, ok := v.ids[&s[0]]
+	if !ok {
+		id = len(v.ids) + 1
+		v.ids[&s[0]] = id
+	}
+	v.sets[id] = s
+	return id, len(s), allZero
+}
+
+// Write stores a non-zero value in a set previously obtained.
+func (v *VerifValuePool) Write(id, idx int, n int64) {
+	if s := v.sets[id]; idx < len(s) {
+		s[idx] = IntValue(n)
+	}
+}
+
+// Read returns the integer stored at idx (0 for the zero Value).
+func (v *VerifValuePool) Read(id, idx int) int64 {
+	if s := v.sets[id]; idx < len(s) {
+		if n, ok := s[idx].TryInt(); ok {
+			return n
+		}
+	}
+	return 0
+}
+
+// Release calls valuePool.release.
+func (v *VerifValuePool) Release(id int) {
+	if s, ok := v.sets[id]; ok {
+		v.p.release(s)
+	}
+}
